@@ -38,6 +38,7 @@ type Case struct {
 	Len   int    `json:"len,omitempty"`
 	Chunk int    `json:"chunk,omitempty"`
 	EOFWD bool   `json:"eof_with_data,omitempty"`
+	Stall bool   `json:"stall_before_every_read,omitempty"`
 }
 
 // ---- size family: everything above has streams of at most 8 bytes and buffers
@@ -103,10 +104,11 @@ func sizeFamily(w *runner.W, caseNo *int64) {
 						if ch == 1 && len(data) > 5000 && (w.Quick() || buf != 4096) {
 							continue // one-byte reads of the long streams: thorough, one buffer size
 						}
-						for _, ewd := range []bool{false, true} {
-							c := Case{Scanner: sc, Buf: buf, Shape: shape, Len: l, Chunk: ch, EOFWD: ewd}
+						for _, mode := range []int{0, 1, 2} {
+							ewd, stall := mode == 1, mode == 2
+							c := Case{Scanner: sc, Buf: buf, Shape: shape, Len: l, Chunk: ch, EOFWD: ewd, Stall: stall}
 							w.SetCase(func() any { return c })
-							res := runWith(&chunkReader{data: data, fixed: ch, eofWithData: ewd}, sc, buf, data)
+							res := runWith(&chunkReader{data: data, fixed: ch, eofWithData: ewd, stallEvery: stall}, sc, buf, data)
 							w.Eval(res.lines >= 1)
 							w.Add("size_family_runs", 1)
 							w.Add("transitions", int64(res.nData))
@@ -137,6 +139,8 @@ type chunkReader struct {
 	// size family: a fixed chunking policy instead of explorer choices
 	fixed       int  // > 0: every read returns min(fixed, len(p), rest) bytes
 	eofWithData bool // the last data arrives together with io.EOF
+	stallEvery  bool // a 0-byte answer (0, nil) before every data-carrying read
+	stalled     bool
 	reads       int
 }
 
@@ -148,6 +152,11 @@ func (r *chunkReader) Read(p []byte) (int, error) {
 			r.err = io.EOF
 			return 0, io.EOF
 		}
+		if r.stallEvery && !r.stalled && len(p) > 0 {
+			r.stalled = true
+			return 0, nil
+		}
+		r.stalled = false
 		n := r.fixed
 		if n > len(p) {
 			n = len(p)
@@ -357,8 +366,15 @@ func runWith(r *chunkReader, sc string, buf int, data []byte) (res result) {
 	if r.err == nil {
 		return bad("ended-without-eof", "Scan returned false although the reader never reported EOF or an error")
 	}
-	if s.Scan() {
-		return bad("scan-after-end", "Scan returned true after it had returned false")
+	// "A non-EOF read error is reported once, ends the stream": asking again
+	// after the end neither yields lines nor reports the error again
+	for k := 0; k < 3; k++ {
+		if s.Scan() {
+			return bad("scan-after-end", "Scan returned true after it had returned false")
+		}
+	}
+	if errCalls != wantErr {
+		return bad("onerror-count-after-end", fmt.Sprintf("OnError called %d times after Scan was asked again past the end, want %d", errCalls, wantErr))
 	}
 	return res
 }
@@ -450,7 +466,7 @@ func replay(w *runner.W, raw json.RawMessage) {
 	}
 	if c.Shape != "" {
 		data := sizeStream(c.Shape, c.Len)
-		res := runWith(&chunkReader{data: data, fixed: c.Chunk, eofWithData: c.EOFWD}, c.Scanner, c.Buf, data)
+		res := runWith(&chunkReader{data: data, fixed: c.Chunk, eofWithData: c.EOFWD, stallEvery: c.Stall}, c.Scanner, c.Buf, data)
 		if res.sig != "" {
 			w.Violation(res.sig, res.detail, c)
 		}
@@ -470,7 +486,7 @@ func main() {
 		Properties: []string{"C04"},
 		Level:      "model_checking",
 		Rule: func(prop, tier string) string {
-			return "every byte string over {a,CR,LF} up to length 6 (quick) / 8 (thorough) x scanner {immediate, buffered} x buffer size 1..6/7 (buffered from 2) x every answer sequence of the underlying reader: all chunk sizes and data+EOF (free choices), up to 2 deviations (thorough: also 3 deviations for streams up to length 6) among 0-byte stalls and an injected non-EOF error (a plain error or io.ErrUnexpectedEOF) with 0..k bytes at any read, after which the reader would go on delivering the rest of the stream if asked; executed on the real scanners, lines retained and compared after the scan; plus a size family without explorer choices: 4 stream shapes (a line of L bytes then a short one; CR LF ending exactly at L then an unterminated rest of L bytes; L lines of 2 bytes; lines of growing length up to L bytes in total) for L = 0..70 and 2^k-1, 2^k, 2^k+1 (k = 7..17 quick / 18 thorough) x buffer sizes {16, 4096, 131072 = the production size} x reads of {everything asked for, 4096, 7, 1} bytes x last data with or without io.EOF. non-trivial = at least 2 data-carrying reads and at least 1 line; every execution is a distinct (stream, buffer, answer sequence) triple"
+			return "every byte string over {a,CR,LF} up to length 6 (quick) / 8 (thorough) x scanner {immediate, buffered} x buffer size 1..6/7 (buffered from 2) x every answer sequence of the underlying reader: all chunk sizes and data+EOF (free choices), up to 2 deviations (thorough: also 3 deviations for streams up to length 6) among 0-byte stalls and an injected non-EOF error (a plain error or io.ErrUnexpectedEOF) with 0..k bytes at any read, after which the reader would go on delivering the rest of the stream if asked; executed on the real scanners, lines retained and compared after the scan; plus a size family without explorer choices: 4 stream shapes (a line of L bytes then a short one; CR LF ending exactly at L then an unterminated rest of L bytes; L lines of 2 bytes; lines of growing length up to L bytes in total) for L = 0..70 and 2^k-1, 2^k, 2^k+1 (k = 7..17 quick / 18 thorough) x buffer sizes {16, 4096, 131072 = the production size} x reads of {everything asked for, 4096, 7, 1} bytes x {last data without io.EOF, with io.EOF, a 0-byte stall before every data-carrying read (the number of stalls grows with the stream)}; after the end Scan is asked three more times (no line, no second error report). non-trivial = at least 2 data-carrying reads and at least 1 line; every execution is a distinct (stream, buffer, answer sequence) triple"
 		},
 		Assumptions: func(string) []string {
 			return []string{"the reader obeys io.Reader (n <= len(p)); after an error it keeps returning that error", "byte values outside {a,CR,LF} behave like 'a' (the scanners only compare against LF and CR)"}
